@@ -812,7 +812,20 @@ def m_fatal(r, cfg, pre):
         cfg["yaml_extra"] = "tempRollingWindowSize: many\n"
 
 
+def m_cross_section_id(r, cfg, pre):
+    """a fan named like a sensor (the README's own examples do that): ids are unique per section only"""
+    f = r.pick(cfg["fans"])
+    f["id"] = r.pick(cfg["sensors"])["id"]
+
+
+def m_cross_section_curve_id(r, cfg, pre):
+    """a fan named like a curve"""
+    f = r.pick(cfg["fans"])
+    f["id"] = r.pick(cfg["curves"])["id"]
+
+
 MUTATIONS = [
+    m_cross_section_id, m_cross_section_curve_id,
     m_sensor_dup, m_sensor_noid, m_sensor_nobackend, m_sensor_more, m_sensor_index, m_sensor_add_cmd,
     m_curve_dup, m_curve_noid, m_curve_nobackend, m_curve_more,
     m_fn_type, m_fn_members_empty, m_fn_members_one, m_fn_members_many, m_fn_self, m_fn_dangling, m_fn_near_miss, m_fn_cycle,
